@@ -17,8 +17,8 @@ from vlib import ber_ref as B
 from vlib import build, driver, model as M, rigp, runner
 
 PID = "C04"
-KINDS_C = ["ok", "rid+1", "rid-1", "rid0", "ridneg", "stale", "comm_prefix", "comm_suffix", "comm_empty", "comm_case", "version", "trunc", "late", "dup"]
-KINDS_3 = ["ok", "rid+1", "rid-1", "rid0", "ridneg", "stale", "msgid", "user", "engine", "version", "trunc", "late", "dup", "report",
+KINDS_C = ["ok", "rid+1", "rid-1", "rid0", "ridneg", "rid+2^32", "rid-2^32", "stale", "comm_prefix", "comm_suffix", "comm_empty", "comm_case", "version", "trunc", "late", "dup"]
+KINDS_3 = ["ok", "rid+1", "rid-1", "rid0", "ridneg", "rid+2^32", "rid-2^32", "stale", "msgid", "msgid+2^32", "user", "engine", "version", "trunc", "late", "dup", "report",
            "report_engine", "report_user", "report_msgid"]
 T_SHORT = 0.25
 
@@ -61,6 +61,13 @@ class Script:
                 d["rid"] = 0
             elif k == "ridneg":
                 d["rid"] = -req.request_id - 1
+            elif k == "rid+2^32":
+                d["rid"] = req.request_id + (1 << 32)
+            elif k == "rid-2^32":
+                d["rid"] = req.request_id - (1 << 32)
+            elif k == "msgid+2^32":
+                d["mid"] = req.m["msg_id"] + (1 << 32)
+                ov["msg_id"] = d["mid"]
             elif k == "stale":
                 d["rid"] = prev[0] if prev else (req.request_id ^ 0x5555)
                 if req.version == 3 and prev:
@@ -274,6 +281,9 @@ def worker(job):
                                        "datagrams": [d["dg"].hex() for r in recs for d in r.get("sent", [])][:12]})
             else:
                 res["inconclusive"].append("%s %s %s: mismatch not reproduced with a 1.2 s timeout (%d/2): %s" % (cfg.key(), op, plan, confirmed, bad["judged"][:100]))
+        if len(res.setdefault("samples", [])) < 2 and si % 50 == 7:
+            res["samples"].append({"cfg": cfg.key(), "op": op, "script": plan, "per_request": [
+                {"injected": [(d["kind"], d["serial"]) for d in r.get("sent", [])], "spec_says": r.get("model"), "call_returned": repr(r.get("out"))[:100]} for r in recs]})
         for r in recs:
             if "agent_err" in r:
                 res["inconclusive"].append("agent could not parse a request: %s" % r["agent_err"])
@@ -346,9 +356,6 @@ def main():
         nsh = 4 if a.tier == "quick" else 6
         for sh in range(nsh):
             jobs.append({"seed": a.seed * 1009 + ci * 10 + sh, "cfg": cfg.to_json(), "scripts": sc[sh::nsh]})
-    chk.sample({"script": {"op": "get", "requests": [["late"], ["stale", "dup"]]},
-                "meaning": "reply to request 1 held until request 2 arrives; then a copy with request 1's id, then the true reply twice",
-                "spec": "call 1 times out; call 2 skips the late and stale ones and delivers the first copy of its own reply; the second copy stays queued"})
     # the workers spend most of their time waiting for timeouts to expire: oversubscribe the cores
     outs = runner.run_workers("checks.c04", "worker", jobs, variant="rel", timeout=3000, nproc=40)
     st = {"scripts": 0, "requests": 0, "datagrams": 0, "unjudged": 0, "kinds": {}}
@@ -365,6 +372,8 @@ def main():
             raise runner.HarnessError(res["harness_error"])
         for x in res["inconclusive"][:3]:
             chk.inconc(x)
+        for x in res.get("samples", [])[:1]:
+            chk.sample(x, limit=6)
         for k in ("scripts", "requests", "datagrams", "unjudged"):
             st[k] += res[k]
         for k, v in res["kinds"].items():
